@@ -188,6 +188,9 @@ def load_known():
 
 def write_evidence(pid, tier, seed, level, coverage, assumptions, wall, violations):
     os.makedirs(os.path.join(ROOT, 'evidence'), exist_ok=True)
+    if not coverage.get('samples'):
+        # every shard died (or failed) before a case completed: say so instead of leaving the list empty
+        coverage['samples'] = ['(no generated case completed before the run ended; see violation_replays: %s)' % ', '.join(coverage.get('violation_replays', []) or ['none'])]
     ev = dict(property_id=pid, tier=tier, seed=seed, level=level, coverage=coverage, assumptions=assumptions,
               wall_s=round(wall, 2), violations=violations)
     path = os.path.join(ROOT, 'evidence', pid + '.json')
